@@ -207,5 +207,39 @@ ov = {"Replace": {os.path.join(rt, 'map.go'): os.path.join(out, 'map.go'),
 for fn, text in extra.items():
     open(os.path.join(out, fn), 'w').write(text)
     ov["Replace"][os.path.join(rt, fn)] = os.path.join(out, fn)
+# ---- owned wall clock ---------------------------------------------------------------------------
+# VERIF_CLOCK=<unix seconds>: time.Now() reports that instant at process start and advances with the real
+# clock from there (the monotonic reading is untouched). Unset: the real clock.
+td = os.path.join(goroot, 'src', 'time')
+t = open(os.path.join(td, 'time.go')).read()
+oldn = "func Now() Time {\n\tsec, nsec, mono := now()\n"
+assert t.count(oldn) == 1, "time.Now not found"
+t = t.replace(oldn, "func Now() Time {\n\tsec, nsec, mono := now()\n\tsec += verifClockDelta\n")
+open(os.path.join(out, 'time.go'), 'w').write(t)
+open(os.path.join(out, 'verifclock.go'), 'w').write('''package time
+
+import "syscall"
+
+// verification overlay: wall clock owned by the harness (see /verif/engines/mapctl/gen.py)
+var verifClockDelta int64
+
+func init() {
+	s, ok := syscall.Getenv("VERIF_CLOCK")
+	if !ok || s == "" {
+		return
+	}
+	var base int64
+	for i := 0; i < len(s); i++ {
+		if s[i] < '0' || s[i] > '9' {
+			return
+		}
+		base = base*10 + int64(s[i]-'0')
+	}
+	sec, _, _ := now()
+	verifClockDelta = base - sec
+}
+''')
+ov["Replace"][os.path.join(td, 'time.go')] = os.path.join(out, 'time.go')
+ov["Replace"][os.path.join(td, 'verifclock.go')] = os.path.join(out, 'verifclock.go')
 json.dump(ov, open(os.path.join(out, 'overlay.json'), 'w'), indent=1)
 print(os.path.join(out, 'overlay.json'))
